@@ -39,6 +39,7 @@ type Faults struct {
 	ShortWrite   bool // the failing write writes half of its data first
 	StallReading bool // this endpoint's Reads block (peer sees back-pressure) - set/cleared by the harness
 	HoldReadAt   int  // the k-th Read copies its data and then waits for ReleaseRead before it returns
+	HoldWriteAt  int  // the k-th Write delivers its data and then waits for ReleaseWrite before it returns
 }
 
 // Conn is one end of the in-memory connection.
@@ -53,12 +54,14 @@ type Conn struct {
 	wTimer    *time.Timer
 	closed    bool
 
-	F       Faults
-	held    chan struct{} // closed by ReleaseRead
-	Holding chan struct{} // closed when a read is being held
-	Reads   int
-	Writes  int
-	Closes  int
+	F        Faults
+	held     chan struct{} // closed by ReleaseRead
+	Holding  chan struct{} // closed when a read is being held
+	HoldingW chan struct{} // closed when a write is being held
+	heldW    chan struct{}
+	Reads    int
+	Writes   int
+	Closes   int
 	// OnRead is called with the number of bytes consumed so far (for "afterwards" accounting)
 }
 
@@ -183,7 +186,40 @@ func (c *Conn) Write(p []byte) (int, error) {
 		}
 		h.cond.Wait()
 	}
+	if f.HoldWriteAt != 0 && n == f.HoldWriteAt {
+		// the bytes are on their way to the peer; the call itself returns only when the harness lets go
+		// (a write that takes its time while the peer already answers)
+		c.mu.Lock()
+		held, holding := c.heldW, c.HoldingW
+		c.mu.Unlock()
+		if held != nil {
+			h.mu.Unlock()
+			close(holding)
+			<-held
+			h.mu.Lock()
+		}
+	}
 	return written, ferr
+}
+
+// ArmHoldWrite makes the k-th Write (absolute count) deliver its bytes but return only after ReleaseWrite.
+func (c *Conn) ArmHoldWrite(k int) {
+	c.mu.Lock()
+	c.F.HoldWriteAt = k
+	c.heldW = make(chan struct{})
+	c.HoldingW = make(chan struct{})
+	c.mu.Unlock()
+}
+
+// ReleaseWrite lets a held write return (and cancels a hold that was not used).
+func (c *Conn) ReleaseWrite() {
+	c.mu.Lock()
+	h := c.heldW
+	c.heldW = nil
+	c.mu.Unlock()
+	if h != nil {
+		close(h)
+	}
 }
 
 func (c *Conn) Close() error {
